@@ -132,6 +132,30 @@ var positions = []struct {
 	{"match_against_and", "SELECT a FROM t1 WHERE MATCH ( a ) AGAINST ( 'x' ) AND %s", 0, false},
 	{"view_body", "CREATE VIEW v1 AS SELECT a FROM t1 WHERE %s", 1, false},
 	{"materialized_view_body", "CREATE MATERIALIZED VIEW mv1 AS SELECT a FROM t1 WHERE %s", 1, false},
+	{"subquery_as_function_argument", "SELECT coalesce ( ( SELECT b FROM t2 WHERE %s ) , 0 ) FROM t1", 2, false},
+	{"subquery_in_nested_function_argument", "SELECT a FROM t1 WHERE abs ( round ( ( SELECT b FROM t2 WHERE %s ) ) ) > 1", 2, false},
+	{"in_subquery_as_function_argument", "SELECT a FROM t1 WHERE coalesce ( b IN ( SELECT b FROM t2 WHERE %s ) , FALSE )", 2, false},
+	{"exists_as_function_argument", "SELECT a FROM t1 WHERE coalesce ( EXISTS ( SELECT 1 FROM t2 WHERE %s ) , FALSE )", 2, false},
+	{"subquery_in_case_result", "SELECT CASE WHEN a = 1 THEN ( SELECT b FROM t2 WHERE %s ) ELSE 0 END FROM t1", 2, false},
+	{"subquery_in_cast", "SELECT CAST ( ( SELECT b FROM t2 WHERE %s ) AS INTEGER ) FROM t1", 2, false},
+	{"subquery_in_between_bound", "SELECT a FROM t1 WHERE a BETWEEN 1 AND ( SELECT b FROM t2 WHERE %s )", 2, false},
+	{"subquery_in_in_list", "SELECT a FROM t1 WHERE a IN ( 1 , ( SELECT b FROM t2 WHERE %s ) )", 2, false},
+	{"subquery_in_arithmetic", "SELECT a + ( SELECT b FROM t2 WHERE %s ) FROM t1", 2, false},
+	{"subquery_in_array", "SELECT ARRAY [ ( SELECT b FROM t2 WHERE %s ) ] FROM t1", 2, false},
+	{"subquery_in_tuple", "SELECT a FROM t1 WHERE ( a , b ) = ( 1 , ( SELECT b FROM t2 WHERE %s ) )", 2, false},
+	{"subquery_in_window_partition", "SELECT sum ( a ) OVER ( PARTITION BY ( SELECT b FROM t2 WHERE %s ) ) FROM t1", 2, false},
+	{"subquery_in_unary_minus", "SELECT - ( SELECT b FROM t2 WHERE %s ) FROM t1", 2, false},
+	{"subquery_in_like_pattern", "SELECT a FROM t1 WHERE b LIKE ( SELECT c FROM t2 WHERE %s )", 2, false},
+	{"subquery_in_is_null", "SELECT a FROM t1 WHERE ( SELECT b FROM t2 WHERE %s ) IS NULL", 2, false},
+	{"subquery_in_filter", "SELECT count ( * ) FILTER ( WHERE a > ( SELECT b FROM t2 WHERE %s ) ) FROM t1", 2, false},
+	{"subquery_in_aggregate_order_by", "SELECT array_agg ( a ORDER BY ( SELECT b FROM t2 WHERE %s ) ) FROM t1", 2, false},
+	{"subquery_in_returning", "DELETE FROM t1 WHERE b = 2 RETURNING ( SELECT b FROM t2 WHERE %s )", 2, false},
+	{"subquery_in_merge_set", "MERGE INTO t1 USING t2 ON t1 . a = t2 . a WHEN MATCHED THEN UPDATE SET b = ( SELECT b FROM t2 WHERE %s )", 2, false},
+	{"subquery_in_on_conflict_set", "INSERT INTO t1 VALUES ( 1 ) ON CONFLICT ( a ) DO UPDATE SET a = ( SELECT b FROM t2 WHERE %s )", 2, false},
+	{"subquery_in_group_by", "SELECT a FROM t1 GROUP BY ( SELECT b FROM t2 WHERE %s )", 2, false},
+	{"subquery_in_subscript", "SELECT a [ ( SELECT b FROM t2 WHERE %s ) ] FROM t1", 2, false},
+	{"subquery_in_json_operand", "SELECT a -> ( SELECT b FROM t2 WHERE %s ) FROM t1", 2, false},
+	{"subquery_in_interval_free_concat", "SELECT 'x' || ( SELECT b FROM t2 WHERE %s ) FROM t1", 2, false},
 }
 
 // union positions: %s is where "UNION SELECT ..." is appended to a query
@@ -338,7 +362,7 @@ func relayout(rt *rapid.T, tmpl, payload string, cond bool) string {
 }
 
 func TestScanContextClosed(t *testing.T) {
-	hx.Rule("scan_context_closed", "documented payloads (3 tautologies, 6 time-delay/dangerous calls, 4 UNION probes) x condition/expression positions of the grammar (61 for conditions/calls incl. operand positions under comparisons, arithmetic, casts and CASE, MERGE ON / WHEN conditions, SET and INSERT values and view bodies, 6 for UNION probes, nesting depth up to 2) x layouts (whitespace, keyword/function letter case, redundant parentheses) x 4 severity thresholds; the class/severity reported for the payload as top-level WHERE condition must be reported at every position and layout; thresholds filter exactly; counts equal the list; the tree is not mutated; A,B,A scans agree; a used scanner whose MinSeverity field is changed between scans answers like a fresh one; non-trivial = position is not the base and nesting depth >= 1; distinct = payload x position x layout hash")
+	hx.Rule("scan_context_closed", "documented payloads (3 tautologies, 6 time-delay/dangerous calls, 4 UNION probes) x condition/expression positions of the grammar (110 for conditions/calls incl. sub-queries underneath function calls, casts, CASE results, lists, tuples and operators, operand positions under comparisons, arithmetic, casts and CASE, MERGE ON / WHEN conditions, SET and INSERT values and view bodies, 6 for UNION probes, nesting depth up to 2) x layouts (whitespace, keyword/function letter case, redundant parentheses) x 4 severity thresholds; the class/severity reported for the payload as top-level WHERE condition must be reported at every position and layout; thresholds filter exactly; counts equal the list; the tree is not mutated; A,B,A scans agree; a used scanner whose MinSeverity field is changed between scans answers like a fresh one; non-trivial = position is not the base and nesting depth >= 1; distinct = payload x position x layout hash")
 	scanCheck.Rapid(t, hx.N(60000, 600000), genScanPositions)
 }
 
